@@ -246,6 +246,16 @@ def run_traced(job, opt=None):
             snaps.append([_enc_agent(a) for a in self._population])
         return r
 
+    if job.get("warmup"):
+        # the same optimizer instance first solves ANOTHER task (multi-step history): e.g. same space and seed, other objective / direction
+        wj = dict(job, **job["warmup"])
+        wj.pop("warmup", None)
+        wj["trace"] = False
+        try:
+            with contextlib.redirect_stdout(io.StringIO()):
+                opt.optimize(build_task({k: v for k, v in wj.items() if not k.startswith("_")}), mode=mode, workers=job.get("workers"))
+        except Exception:  # noqa — the warm-up's own outcome is not what is being judged
+            pass
     out["cfg_before"] = _dump(opt._config)
     out["task_before"] = _dump(task)
     if job.get("trace", True):
